@@ -3722,14 +3722,17 @@ func (p *Posix) getObject(_ context.Context, input *s3.GetObjectInput) (*s3.GetO
 	}
 
 	objSize := fi.Size()
+	if fi.IsDir() {
+		// directory objects are always 0 len: the range is judged
+		// against that, not against the size of the directory inode
+		objSize = 0
+	}
 	startOffset, length, isValid, err := backend.ParseGetObjectRange(objSize, *input.Range)
 	if err != nil {
 		return nil, err
 	}
 
 	if fi.IsDir() {
-		// directory objects are always 0 len
-		objSize = 0
 		length = 0
 	}
 
